@@ -244,6 +244,24 @@ def d5_ensemble(ck):
     ok = len(init) == 1 and u(init[0].value) in ('init_pops.copy()', 'np.array(init_pops)', 'np.copy(init_pops)')
     ck.check(ok, rule + '.copy', mod, init[0] if init else fn, 'synthetic_ensemble', u(init[0]) if init else 'p',
              'starts from a copy of the initial populations', 'the propagation must start from a copy of init_pops')
+    # the collected trajectory must not be forced into the dtype of the
+    # (possibly integer / float32) initial populations
+    for s in walk_local(fn):
+        if isinstance(s, ast.Assign) and u(s.targets[0]) == 'observations' and isinstance(s.value, ast.Call) and \
+                call_name(s.value) in ('np.empty', 'np.zeros', 'np.ones', 'np.full', 'np.empty_like', 'np.zeros_like'):
+            dt = kwarg(s.value, 'dtype')
+            bad = (dt is not None and '.dtype' in u(dt)) or call_name(s.value) in ('np.empty_like', 'np.zeros_like')
+            ck.check(not bad, rule + '.collect', mod, s, 'synthetic_ensemble', u(s),
+                     'trajectory buffer is floating point regardless of the dtype of init_pops',
+                     'the buffer that collects the propagated populations takes its dtype from the initial populations: '
+                     'rmatvec returns float64, so for integer (one-hot) or float32 start vectors every propagated row is '
+                     'silently cast (truncated to zeros / rounded)')
+    fin = [s for s in walk_local(fn) if isinstance(s, ast.Assign) and u(s.targets[0]) == 'observations' and u(s.value) == 'np.array(observations)']
+    lists = [s for s in walk_local(fn) if isinstance(s, ast.Assign) and u(s.targets[0]) == 'observations' and isinstance(s.value, ast.List)]
+    allocs = [s for s in walk_local(fn) if isinstance(s, ast.Assign) and u(s.targets[0]) == 'observations' and isinstance(s.value, ast.Call) and call_name(s.value) != 'np.array']
+    ck.check((len(fin) == 1 and len(lists) == 2) or bool(allocs), rule + '.collect', mod, fin[0] if fin else fn, 'synthetic_ensemble',
+             '%d list starts, %d final conversions, %d preallocations' % (len(lists), len(fin), len(allocs)),
+             'every step is collected (list + final np.array, or a preallocated buffer)', 'the trajectory of populations/observables is not collected per step')
     ops = [s for s in assigns_to(fn, 'T_op') if isinstance(s, ast.Assign)]
     ok = bool(ops) and all('aslinearoperator(T' in u(s.value) for s in ops)
     ck.check(ok, rule + '.operator', mod, ops[0] if ops else fn, 'synthetic_ensemble', '; '.join(u(s) for s in ops),
